@@ -29,6 +29,10 @@ func main() {
 	if *list {
 		sort.Slice(core.Registry, func(i, j int) bool { return core.Registry[i].Name < core.Registry[j].Name })
 		for _, r := range core.Registry {
+			if os.Getenv("LV_LIST_JSON") != "" {
+				fmt.Printf("{\"name\":%q,\"props\":%q,\"doc\":%q}\n", r.Name, strings.Join(r.Props, ","), r.Doc)
+				continue
+			}
 			fmt.Printf("%-12s %v thorough=%v\n    %s\n", r.Name, r.Props, r.Thorough, r.Doc)
 		}
 		return
